@@ -296,6 +296,11 @@ class Engine:
         """Python truthiness -> bool or Sym(bool)."""
         if v is None:
             return False
+        hook = getattr(self, "truth_hook", None)  # contract option truth_hook(eng, v) -> bool | Sym(bool) | NotImplemented: truthiness of values
+        if hook is not None:                       # whose kind alone does not decide it (e.g. an ARBITRARY object returned by a callback)
+            r = hook(self, v)
+            if r is not NotImplemented:
+                return r
         if hasattr(v, "__pyvc_truth__"):  # extension values with their own truthiness (abstract strings: non-empty)
             return v.__pyvc_truth__(self)
         if isinstance(v, z3.ExprRef):
